@@ -464,6 +464,10 @@ def compose_case(draw):
     c["hom"] = draw(st.sampled_from(list(range(len(HOM_NAMES) * 3))))
     if c["n"] == 2 and draw(st.integers(0, 2)) == 0:
         c["hom"] = HOM_NAMES.index("lie.hom.sl2_irrep(%d)" % draw(st.integers(2, 5)))
+    if c["kind"] == "complex" and draw(st.integers(0, 3)) == 0:
+        # the realification is the identity-like block map on real input: only genuinely
+        # complex generators exercise its imaginary blocks
+        c["hom"] = HOM_NAMES.index("lie.hom.slc_to_slr")
     c["compute_inverses"] = draw(st.booleans())
     if c["n"] == 2 and c["kind"] != "int" and draw(st.integers(0, 2)) == 0:
         # 2x2 generators with an entry that is exactly 0 (quarter turn, shears through it):
